@@ -145,39 +145,73 @@ var subC16Sched = &fw.Sub{Name: "c16.schedules", New: func() fw.Case { return &c
 				obs = fmt.Sprintf("errs=%v log=%q dump=%x", o.errs, o.log, o.dump)
 			case "interpret":
 				obs = impl.Interpret(c.Src).Summary()
+			case "bindbig":
+				// Src = "N:i:j": a slice binding of N blocks, block i holds a key the target has no field for, block j a value
+				// of the wrong type; which of the two is reported must not depend on schedule or CPU count
+				var n, i, j int
+				fmt.Sscanf(c.Src, "%d:%d:%d", &n, &i, &j)
+				blocks := make([]bcl.Block, n)
+				for k := range blocks {
+					blocks[k] = bcl.Block{Type: "t", Name: fmt.Sprint("n", k), Fields: map[string]any{"x": k}}
+				}
+				if i >= 0 && i < n {
+					blocks[i].Fields["y"] = 1
+				}
+				if j >= 0 && j < n {
+					blocks[j].Fields["x"] = "s"
+				}
+				type T struct {
+					Name string
+					X    int
+				}
+				var target []T
+				err := bcl.Bind(&target, bcl.SliceBinding{Value: blocks})
+				sum := 0
+				for _, t := range target {
+					sum += t.X
+				}
+				obs = fmt.Sprintf("err=%v len=%d sum=%d", err, len(target), sum)
 			}
 		}
 		first, set := "", false
 		total := 0
 		var steps int64
-		for b := 0; b <= c.Bound; b++ {
-			x := &vsched.Explorer{Bound: b, Body: body, MaxExec: maxExecPerCase(), Stop: func() bool { fw.Heartbeat(); return fw.Cur != nil && fw.Cur.Expired() },
-				Check: func(e *vsched.Exec) (string, string) {
-					if len(e.Panics) > 0 {
-						return "panic", strings.Join(e.Panics, ";")
-					}
-					if e.Deadlock {
-						return "deadlock", strings.Join(e.Leaked, ";")
-					}
-					if !set {
-						first, set = obs, true
-					} else if obs != first {
-						return "differs", fmt.Sprintf("outcome depends on the goroutine schedule:\n   one schedule: %s\n   another:      %s", fw.Trunc(first, 300), fw.Trunc(obs, 300))
-					}
-					return "same", ""
-				}}
-			x.Explore()
-			total = x.Executions
-			steps = x.Steps + int64(x.Executions)
-			if x.Infra != "" {
-				return fw.Failf("deterministic replay", "INFRA %s", x.Infra)
-			}
-			if x.Fail != "" {
-				return fw.Failf("identical compiled program, diagnostics, output, blocks and binding on every schedule", "bound %d schedule %v: %s", b, x.FailTrace, x.Fail)
-			}
-			if x.Capped {
-				fw.Tally("capped_explorations", 1)
-				break
+		cpuAnswers := []int{0}
+		if c.API == "bindbig" {
+			cpuAnswers = []int{1, 2, 3, 4, 8, 16}
+		}
+		defer vsched.SetCPUs(0)
+		for _, cpus := range cpuAnswers {
+			vsched.SetCPUs(cpus)
+			for b := 0; b <= c.Bound; b++ {
+				x := &vsched.Explorer{Bound: b, Body: body, MaxExec: maxExecPerCase(), Stop: func() bool { fw.Heartbeat(); return fw.Cur != nil && fw.Cur.Expired() },
+					Check: func(e *vsched.Exec) (string, string) {
+						if len(e.Panics) > 0 {
+							return "panic", strings.Join(e.Panics, ";")
+						}
+						if e.Deadlock {
+							return "deadlock", strings.Join(e.Leaked, ";")
+						}
+						if !set {
+							first, set = obs, true
+						} else if obs != first {
+							return "differs", fmt.Sprintf("outcome depends on the goroutine schedule:\n   one schedule: %s\n   another:      %s", fw.Trunc(first, 300), fw.Trunc(obs, 300))
+						}
+						return "same", ""
+					}}
+				x.Explore()
+				total = x.Executions
+				steps = x.Steps + int64(x.Executions)
+				if x.Infra != "" {
+					return fw.Failf("deterministic replay", "INFRA %s", x.Infra)
+				}
+				if x.Fail != "" {
+					return fw.Failf("identical compiled program, diagnostics, output, blocks and binding on every schedule (and for every number of CPUs the code is told)", "bound %d cpus %d schedule %v: %s", b, cpus, x.FailTrace, x.Fail)
+				}
+				if x.Capped {
+					fw.Tally("capped_explorations", 1)
+					break
+				}
 			}
 		}
 		fw.Tally("schedules", int64(total))
@@ -666,6 +700,22 @@ func init() {
 				c.Do(subC16Sched, &c16Sched{Src: src, API: "parse", Bound: bound + 1})
 				c.Do(subC16Sched, &c16Sched{Src: src, API: "parsefile", Bound: bound})
 				c.Do(subC16Sched, &c16Sched{Src: src, API: "parsefile", Bound: bound, Cut: 9})
+			}
+			// slice bindings of many blocks, two of them faulty in different ways: the error must not depend on schedule or on
+			// the number of CPUs the library is told (runtime.GOMAXPROCS / NumCPU are answers of the harness under E1)
+			for _, n := range []int{3, 130, 257, 1030} {
+				pos := []int{0, 1, n / 8, n/4 - 1, n / 4, n/2 - 1, n / 2, 3 * n / 4, n - 2, n - 1}
+				if c.Quick() {
+					pos = []int{0, n / 8, n/2 - 1, n / 2, n - 1}
+				}
+				for _, i := range pos {
+					for _, j := range pos {
+						if i != j && i >= 0 && j >= 0 {
+							c.Do(subC16Sched, &c16Sched{Src: fmt.Sprintf("%d:%d:%d", n, i, j), API: "bindbig", Bound: bound})
+						}
+					}
+				}
+				c.Do(subC16Sched, &c16Sched{Src: fmt.Sprintf("%d:%d:%d", n, -1, -1), API: "bindbig", Bound: bound})
 			}
 			for _, src := range []string{"print )\nprint )\nprint 3\nprint )\nprint )\n", "print (\n\nvar\n)\n\n\nprint )"} {
 				for cut := 1; cut < len(src); cut++ {
